@@ -94,6 +94,7 @@ def cases(ctx):
         c = dict(c, msg=gen.jsonable(m), widened=tags)
         yield c
     yield from msgwork.edited_config_cases(ctx, cids, encs[:4], 1500 if quick else 30000)
+    yield from msgwork.twin_cases(ctx, cids, encs)
     if ctx.shard in (1, 2):
         yield {'class': 'threads', 'threads': 6, 'rounds': 150 if quick else 1500, 'salt': ctx.shard}
     # refusal of unrepresentable values
